@@ -390,6 +390,11 @@ func newC14World(c *chain.Chain, n, m int64, nProv, nSameDomain, nIdle, nUnreg i
 	for i := 0; i < nSameDomain; i++ {
 		act = append(act, add(40+i, fmt.Sprintf("http://x%d.proverdom.com", i), true))
 	}
+	// providers whose host has the prover's second-level label under another TLD (proverdom.net vs proverdom.com): a
+	// different domain, so they are ordinary jurors for forms about the prover - and ordinary requesters of report forms
+	for i := 0; i < nSingleLabel%2+1; i++ {
+		act = append(act, add(47+i, fmt.Sprintf("https://z%d.proverdom.net", i), true))
+	}
 	for i := 0; i < nSingleLabel; i++ {
 		act = append(act, add(45+i, fmt.Sprintf("http://node%d:3333", i), true))
 	}
